@@ -128,7 +128,7 @@ def _pwl_fn(ctx, rng, st):
   omax = omin + float(rng.choice([1.0, 5.0]))
   mag = float(rng.choice([0.5, 2.0, 6.0, 40.0]))          # 40: increments / gaps spanning many orders of magnitude, exp() near overflow
   derived = bool(use_missing and rng.rand() < .5)          # imputed output derived from the last output parameter
-  miv = float(np.float32(imin - 3.0)) if use_missing else None
+  miv = (0.0 if rng.rand() < .3 else float(np.float32(imin - 3.0))) if use_missing else None      # 0.0: a marker that is falsy
   mov = float(omin + 0.3 * (omax - omin)) if (use_missing and not derived) else None
   out_size = nk - cmin - cmax - cyc + derived
   kin = (rng.normal(size=(1, units, nk - 2)) * min(mag, 6.0)).astype(np.float32)   # gaps stay resolvable in float32 (degenerate gaps: C15 / KF-C05-a)
